@@ -174,3 +174,93 @@ package middleware
 //@   ensures ret(H, 1, old(calls(H))) != nil ==> msg.Metadata[delay.DelayedForKey] == durstr(nextDelay(d, old(msg.Metadata[delay.DelayedForKey]))) [failure-stamps-the-next-delay]
 //@   modifies map(msg.Metadata)
 //@   panics-ensures panicked(H, old(calls(H))) [only-the-handler-panics]
+
+// ---- deduplicator (C14) ----
+
+//@ type mapExpiringKeyRepository
+//@   self kr
+//@   monitor mu guards tags
+//@   invariant kr.tags != nil [mon:mu:table-exists]
+
+//@ func (*mapExpiringKeyRepository).IsDuplicate
+//@   ghost atomic
+//@   requires kr != nil && kr.mu != nil
+//@   nopanic
+//@   ensures result1 == nil [never-fails]
+//@   ensures old(has(kr.tags, key)) ==> result0 == true && (forall k string :: has(kr.tags, k) == old(has(kr.tags, k)) && kr.tags[k] == old(kr.tags[k])) [a-remembered-key-is-a-duplicate-and-nothing-changes]
+//@   ensures !old(has(kr.tags, key)) ==> result0 == false && has(kr.tags, key) && kr.tags[key] == timeadd(nowval(old(ncalls(NOW))), kr.window) && (forall k string :: k != key ==> has(kr.tags, k) == old(has(kr.tags, k)) && kr.tags[k] == old(kr.tags[k])) [a-new-key-is-let-through-once-and-remembered-until-now-plus-window]
+//@   modifies map(kr.tags)
+
+//@ func (*mapExpiringKeyRepository).cleanOut
+//@   ghost atomic
+//@   requires kr != nil && kr.mu != nil
+//@   nopanic
+//@   ensures forall k string :: has(kr.tags, k) == (old(has(kr.tags, k)) && !timebefore(old(kr.tags[k]), tagsBefore)) [exactly-the-expired-keys-are-forgotten]
+//@   ensures forall k string :: has(kr.tags, k) ==> kr.tags[k] == old(kr.tags[k]) [remembered-keys-keep-their-expiry]
+//@   inv loop 1: kr.tags != nil && kr.tags == entry(kr.tags) [same-table]
+//@   inv loop 1: forall k string :: has(kr.tags, k) ==> entry(has(kr.tags, k)) && kr.tags[k] == entry(kr.tags[k]) [nothing-added-nothing-rewritten]
+//@   inv loop 1: forall k string :: entry(has(kr.tags, k)) && !has(kr.tags, k) ==> timebefore(entry(kr.tags[k]), tagsBefore) [only-expired-keys-removed]
+//@   inv loop 1: forall k string :: visited(k) && entry(has(kr.tags, k)) && timebefore(entry(kr.tags[k]), tagsBefore) ==> !has(kr.tags, k) [visited-expired-keys-removed]
+//@   modifies map(kr.tags)
+
+//@ func (*mapExpiringKeyRepository).Len
+//@   ghost atomic
+//@   requires kr != nil && kr.mu != nil
+//@   nopanic
+//@   ensures count == len(kr.tags) [counts-the-remembered-keys]
+
+//@ func (*mapExpiringKeyRepository).cleanOutLoop
+//@   requires kr != nil && kr.mu != nil && ticker != nil && ctx != nil
+//@   nopanic
+//@   inv loop 1: true [runs-until-the-context-ends]
+//@   modifies map(kr.tags)
+
+//@ func NewMapExpiringKeyRepository
+//@   nopanic
+//@   ensures window < 1000000 ==> result0 == nil && result1 != nil [sub-millisecond-window-refused]
+//@   ensures window >= 1000000 ==> result1 == nil && hasdyntype(result0, "*middleware.mapExpiringKeyRepository") && unboxptr(result0, "middleware.mapExpiringKeyRepository").window == window && (forall k string :: !has(unboxptr(result0, "middleware.mapExpiringKeyRepository").tags, k)) [fresh-empty-repository-with-the-given-window]
+
+//@ func (*Deduplicator).IsDuplicate
+//@   ghost label DUP
+//@   requires d != nil && m != nil && d.KeyFactory != nil && d.Repository != nil
+//@   callee KF = d.KeyFactory
+//@   callee REPO = d.Repository.IsDuplicate
+//@   ensures calls(KF) == old(calls(KF)) + 1 && arg(KF, 0, old(calls(KF))) == m [key-computed-once-from-the-message]
+//@   ensures ret(KF, 1, old(calls(KF))) != nil ==> result0 == false && result1 == ret(KF, 1, old(calls(KF))) && calls(REPO) == old(calls(REPO)) [hasher-error-returned-repository-not-asked]
+//@   ensures ret(KF, 1, old(calls(KF))) == nil ==> calls(REPO) == old(calls(REPO)) + 1 && arg(REPO, 1, old(calls(REPO))) == ret(KF, 0, old(calls(KF))) && result0 == ret(REPO, 0, old(calls(REPO))) && result1 == ret(REPO, 1, old(calls(REPO))) [repository-asked-once-about-exactly-that-key-its-answer-returned]
+//@   panics-ensures true
+
+//@ func (*Deduplicator).Middleware$1
+//@   requires msg != nil && h != nil && d != nil && d.KeyFactory != nil && d.Repository != nil
+//@   callee H = h
+//@   ensures ncalls(DUP) == old(ncalls(DUP)) + 1 && sarg(DUP, 1, old(ncalls(DUP))) == msg [asks-once-about-this-message]
+//@   ensures sret(DUP, 1, old(ncalls(DUP))) != nil ==> result0 == nil && result1 == sret(DUP, 1, old(ncalls(DUP))) && calls(H) == old(calls(H)) [error-returned-handler-not-invoked]
+//@   ensures sret(DUP, 1, old(ncalls(DUP))) == nil && sret(DUP, 0, old(ncalls(DUP))) ==> result0 == nil && result1 == nil && calls(H) == old(calls(H)) [duplicate-dropped-as-success-without-invoking-the-handler]
+//@   ensures sret(DUP, 1, old(ncalls(DUP))) == nil && !sret(DUP, 0, old(ncalls(DUP))) ==> calls(H) == old(calls(H)) + 1 && result0 == ret(H, 0, old(calls(H))) && result1 == ret(H, 1, old(calls(H))) [first-of-its-key-reaches-the-handler-result-passed-through]
+//@   panics-ensures true
+
+//@ func NewMessageHasherFromMetadataField$1
+//@   requires m != nil
+//@   nopanic
+//@   ensures has(m.Metadata, field) ==> result0 == m.Metadata[field] && result1 == nil [key-is-the-metadata-value]
+//@   ensures !has(m.Metadata, field) ==> result0 == "" && result1 != nil [absent-field-is-an-error]
+
+//@ spec isdup(k0 int, j int) bool := sret(DUP, 0, k0 + j)
+
+//@ func (*deduplicatingPublisherDecorator).Publish
+//@   requires d != nil && d.Publisher != nil && d.deduplicator != nil && d.deduplicator.KeyFactory != nil && d.deduplicator.Repository != nil
+//@   requires forall j int :: 0 <= j && j < len(messages) ==> messages[j] != nil
+//@   callee P = d.Publisher.Publish
+//@   ensures calls(P) <= old(calls(P)) + 1 [at-most-one-inner-publish]
+//@   ensures calls(P) == old(calls(P)) + 1 ==> ncalls(DUP) == old(ncalls(DUP)) + len(messages) && arg(P, 0, old(calls(P))) == topic && err == ret(P, 0, old(calls(P))) && (forall j int :: 0 <= j && j < len(messages) ==> sarg(DUP, 1, old(ncalls(DUP)) + j) == messages[j] && sret(DUP, 1, old(ncalls(DUP)) + j) == nil) [every-message-was-asked-about-in-order-then-one-inner-publish]
+//@   ensures calls(P) == old(calls(P)) + 1 ==> (forall i int :: 0 <= i && i < len(arg(P, 1, old(calls(P)))) ==> (exists j int :: 0 <= j && j < len(messages) && arg(P, 1, old(calls(P)))[i] == messages[j] && !isdup(old(ncalls(DUP)), j))) [only-non-duplicates-are-passed-on]
+//@   ensures calls(P) == old(calls(P)) + 1 ==> (forall j int :: 0 <= j && j < len(messages) && !isdup(old(ncalls(DUP)), j) ==> (exists i int :: 0 <= i && i < len(arg(P, 1, old(calls(P)))) && arg(P, 1, old(calls(P)))[i] == messages[j])) [every-non-duplicate-is-passed-on]
+//@   ensures calls(P) == old(calls(P)) + 1 ==> ncalls("(*Message).Ack") == old(ncalls("(*Message).Ack")) + len(messages) - len(arg(P, 1, old(calls(P)))) [as-many-acks-as-duplicates]
+//@   ensures calls(P) == old(calls(P)) ==> err != nil [nothing-published-only-on-a-hasher-or-repository-error]
+//@   inv loop 1: calls(P) == old(calls(P)) && ncalls(DUP) == old(ncalls(DUP)) + rangeindex + 1 && len(notRecent) <= rangeindex + 1 && ncalls("(*Message).Ack") == old(ncalls("(*Message).Ack")) + rangeindex + 1 - len(notRecent) [accounting]
+//@   inv loop 1: forall j int :: 0 <= j && j <= rangeindex ==> sarg(DUP, 1, old(ncalls(DUP)) + j) == messages[j] && sret(DUP, 1, old(ncalls(DUP)) + j) == nil [asked-about-each-message-in-order-without-error]
+//@   inv loop 1: forall i int :: 0 <= i && i < len(notRecent) ==> (exists j int :: 0 <= j && j <= rangeindex && notRecent[i] == messages[j] && !isdup(old(ncalls(DUP)), j)) [kept-ones-are-non-duplicates]
+//@   inv loop 1: forall j int :: 0 <= j && j <= rangeindex && !isdup(old(ncalls(DUP)), j) ==> (exists i int :: 0 <= i && i < len(notRecent) && notRecent[i] == messages[j]) [non-duplicates-are-kept]
+//@   inv loop 1: forall j int :: 0 <= j && j < len(messages) ==> messages[j] == old(messages[j]) [batch-unchanged]
+//@   assert @call:(*Message).Ack: isDuplicate [only-duplicates-are-acked-here]
+//@   panics-ensures true
